@@ -2,12 +2,14 @@
 Bridge for C05: facts regenerated from /repo (CueVerif.Gen.C05) versus the hand model.
 The order of the `adt.ArcType` constants is the merge order of `Vertex.updateArcType`
 ("keep the smaller"), which `Closed.Kind.rank` / `Closed.Kind.merge` transcribe.
-`pin_*` fingerprint the functions the model transcribes by hand.  typocheck.go is
-deliberately not pinned: the evidence-based typo check is held to the semantic model by
-correspondence only (harness/c05.go), so a behaviour-preserving refactor breaks nothing.
+`pin_*` fingerprint the functions the models transcribe by hand.  Since session 3 the
+evidence algorithm of typocheck.go is transcribed (Model/Typo.lean): its functions are pinned
+below and compared with the real evaluator by the harness stream `tyev` (class I); the
+semantic model / spec stay tied by the observable streams (`val`, `adm`, `den`, class O).
 -/
 import CueVerif.Gen.C05
 import CueVerif.Model.Closed
+import CueVerif.Model.Typo
 namespace CueVerif.Bridge.C05
 open CueVerif CueVerif.Closed
 
@@ -34,5 +36,55 @@ theorem pin_adt_isClosed : Gen.C05.pin_adt_isClosed = "38e6e0eb2e68f242" := by d
 theorem pin_adt_validator_validate : Gen.C05.pin_adt_validator_validate = "3d266f7c57b0bb3f" := by decide
 theorem pin_compile_closeBuiltin : Gen.C05.pin_compile_closeBuiltin = "189f48716b0cc3d0" := by decide
 theorem pin_cue_Value_Allows : Gen.C05.pin_cue_Value_Allows = "5ad47d912dd7f977" := by decide
+
+/-! ### evidence algorithm (Model/Typo.lean): constants regenerated, functions pinned -/
+
+/-- `defIDType`: the order of the constants is the one `Typo.IDKind` lists -/
+def idKindCode : Typo.IDKind → Int
+  | .unknown => 0 | .embedding => 1 | .reference => 2 | .struct => 3
+theorem defEmbedding_code : Gen.C05.defEmbedding = idKindCode .embedding := by decide
+theorem defReference_code : Gen.C05.defReference = idKindCode .reference := by decide
+theorem defStruct_code : Gen.C05.defStruct = idKindCode .struct := by decide
+/-- `conjunctFlags`: three independent bits, modelled as the Bool fields `ell`/`top`/`str` of
+`Typo.ConjInfo` -/
+theorem conjunctFlags_bits :
+    (Gen.C05.cHasEllipsis, Gen.C05.cHasTop, Gen.C05.cHasStruct) = (1, 2, 4) := by decide
+
+theorem pin_adt_OpContext_getNextDefID : Gen.C05.pin_adt_OpContext_getNextDefID = "0d0fa52d0ef0399e" := by decide
+theorem pin_adt_nodeContext_addReplacement : Gen.C05.pin_adt_nodeContext_addReplacement = "d3ac509d6ede5739" := by decide
+theorem pin_adt_nodeContext_updateConjunctInfo : Gen.C05.pin_adt_nodeContext_updateConjunctInfo = "5d22e5e38074d6da" := by decide
+theorem pin_adt_nodeContext_addResolver : Gen.C05.pin_adt_nodeContext_addResolver = "790fb6e8c931de77" := by decide
+theorem pin_adt_OpContext_subField : Gen.C05.pin_adt_OpContext_subField = "e316d192247dfd21" := by decide
+theorem pin_adt_nodeContext_newReq : Gen.C05.pin_adt_nodeContext_newReq = "91359d48193e0207" := by decide
+theorem pin_adt_nodeContext_injectEmbedNode : Gen.C05.pin_adt_nodeContext_injectEmbedNode = "72e30d6038c483aa" := by decide
+theorem pin_adt_nodeContext_splitStruct : Gen.C05.pin_adt_nodeContext_splitStruct = "00441d0252c04ebc" := by decide
+theorem pin_adt_nodeContext_splitScope : Gen.C05.pin_adt_nodeContext_splitScope = "0a9c04c147dcedf8" := by decide
+theorem pin_adt_nodeContext_checkTypos : Gen.C05.pin_adt_nodeContext_checkTypos = "2d2e6da9e8a67d4f" := by decide
+theorem pin_adt_nodeContext_hasEvidenceForAll : Gen.C05.pin_adt_nodeContext_hasEvidenceForAll = "79603028e1f32e0c" := by decide
+theorem pin_adt_nodeContext_hasEvidenceForOne : Gen.C05.pin_adt_nodeContext_hasEvidenceForOne = "baac122c8a4f9304" := by decide
+theorem pin_adt_nodeContext_containsDefIDRec : Gen.C05.pin_adt_nodeContext_containsDefIDRec = "5f2d7c5556c2bfbd" := by decide
+theorem pin_adt_getReqSets : Gen.C05.pin_adt_getReqSets = "f6fc2cf12e300a9e" := by decide
+theorem pin_adt_nodeContext_filterTop : Gen.C05.pin_adt_nodeContext_filterTop = "862d8fbfe08fe546" := by decide
+theorem pin_adt_hasParentEllipsis : Gen.C05.pin_adt_hasParentEllipsis = "c79c6d9beab80c3b" := by decide
+theorem pin_adt_markIgnored : Gen.C05.pin_adt_markIgnored = "f234e38e6aa5fe39" := by decide
+theorem pin_adt_filterSets : Gen.C05.pin_adt_filterSets = "80a5c60c4b763139" := by decide
+theorem pin_adt_reqSets_lookupSet : Gen.C05.pin_adt_reqSets_lookupSet = "8575ab32ff297a8e" := by decide
+theorem pin_adt_nodeContext_scheduleStruct : Gen.C05.pin_adt_nodeContext_scheduleStruct = "a54a7dac96c8caed" := by decide
+theorem pin_adt_nodeContext_scheduleVertexConjuncts : Gen.C05.pin_adt_nodeContext_scheduleVertexConjuncts = "c079f5f0eddcdb68" := by decide
+theorem pin_adt_OpContext_notAllowedError : Gen.C05.pin_adt_OpContext_notAllowedError = "d30a49f3f3e71c0a" := by decide
+
+/-! ### arc-type merge: TRANSLATED from the guard and the final assignment of
+`Vertex.updateArcType` (extract/c05_arc.go), proved equal to `Kind.merge` on the three
+modelled kinds (the pin above stays as a tripwire for the rest of the body) -/
+theorem updateArcType_translated (cur t : Kind) :
+    Gen.C05.updateArcTypeResult (cur.rank : Int) (t.rank : Int) = ((cur.merge t).rank : Int) := by
+  cases cur <;> cases t <;> decide
+/-- the guard never fires because of `ArcNotPresent` for a modelled kind -/
+theorem arcNotPresent_after : Gen.C05.arcNotPresent = 4 := by decide
+
+/-! ### pattern constraints (Model/PatMatch.lean) -/
+theorem pin_adt_matchPattern : Gen.C05.pin_adt_matchPattern = "6c1fa4be522ae07e" := by decide
+theorem pin_adt_matchPatternValue : Gen.C05.pin_adt_matchPatternValue = "d1fe7ad2a87de116" := by decide
+theorem pin_adt_BoundValue_validateStr : Gen.C05.pin_adt_BoundValue_validateStr = "6eac05120dd0bef9" := by decide
 
 end CueVerif.Bridge.C05
